@@ -115,6 +115,11 @@ def run(shard, rec):
                     y = thresha.recombine(field, points)
                     rec.count('subset_recombinations')
                     got = [red(v) for v in y]
+                    if got == sref and field.ext_deg > 1:
+                        # the runtime passes shares as received: field.from_bytes() yields *int* encodings also for extension fields
+                        yi = thresha.recombine(field, [(x_, [int(field(v)) for v in row]) for x_, row in points])
+                        rec.count('int_encoded_recombinations')
+                        got = [red(v) for v in yi]
                     if got != sref:
                         ok = False
                         rec.violation(f'{fname} t={t} m={m} subset {S}: recombine gives {got} expected {sref}', {'mechanism': 'recombine-secret'},
@@ -169,4 +174,13 @@ def run(shard, rec):
                     if [red(v) for v in yy.value] != sref:
                         ok = False
                         rec.violation(f'{fname} t={t} m={m}: np split -> np recombine not inverse', {'mechanism': 'np-roundtrip'}, {'case': case}, case=case)
+                # a dealing belongs to its caller: a later dealing (same m, same number of secrets) leaves the earlier shares as they were
+                other_secrets = [field((v * 7 + 3) % q) for v in svals]
+                shares_b = thresha.random_split(field, other_secrets if as_elements else [a.value for a in other_secrets], t, m)
+                rec.count('held_dealings_checked')
+                if [[red(shares[i][h]) for i in range(m)] for h in range(n)] != osh:
+                    rec.violation(f'{fname} t={t} m={m}: the shares returned by random_split changed when random_split was called again (same m, same number of secrets)',
+                                  {'mechanism': 'split-result-overwritten'}, {'case': case}, case=case)
+                elif t >= 1 and q > 1000 and any(shares_b[i] is shares[i] for i in range(m)):
+                    rec.violation(f'{fname} t={t} m={m}: two dealings share their row lists', {'mechanism': 'split-result-overwritten'}, {'case': case}, case=case)
                 rec.case(case, nontrivial=t >= 1, sample={'field': fname, 't': t, 'm': m, 'secrets': svals, 'subsets_checked': len(subsets)} if rep == 0 and t == 1 and m in (3, 5) else None)
